@@ -626,11 +626,14 @@ def execute(case, emit):
         emit({"id": cid, "phase": "ref", **refinfo})
         # ---- the call ----
         t0 = time.perf_counter()
+        c0 = time.process_time()
+        cpu = None
         try:
             a = dec(case.get("args", []), xs, ds)
             k = {kk: dec(v, xs, ds) for kk, v in case.get("kwargs", {}).items()}
             r = ent["impl"](*a, **k)
             el = time.perf_counter() - t0
+            cpu = time.process_time() - c0
             nnz_out, ext_out = sizes(r)
             out = {"out": "ok", "result": result_summary(r), "nnz_out": nnz_out, "ext_out": ext_out}
             if case.get("value"):
@@ -647,7 +650,7 @@ def execute(case, emit):
         except Exception as e:  # noqa: BLE001
             el = time.perf_counter() - t0
             out = {"out": "err", **describe_exc(e)}
-    emit({"id": cid, "phase": "done", "elapsed": round(el, 6), "nnz_in": nnz_in, "ext_in": ext_in, **refinfo, **out})
+    emit({"id": cid, "phase": "done", "elapsed": round(el, 6), "cpu": None if cpu is None else round(cpu, 6), "nnz_in": nnz_in, "ext_in": ext_in, **refinfo, **out})
 
 
 # ---- time regression ---------------------------------------------------------------------------------------------
@@ -724,6 +727,14 @@ def main():
         case = json.loads(line)
         if case.get("op") == "__quit__":
             break
+        if case.get("op") == "__calibrate__":
+            try:
+                import loadtol
+
+                emit({"id": case.get("id"), "phase": "done", "out": "ok", **loadtol.reference()})
+            except Exception as e:  # noqa: BLE001
+                emit({"id": case.get("id"), "phase": "done", "out": "err", **describe_exc(e)})
+            continue
         if case.get("op") == "__timing__":
             try:
                 emit({"id": case.get("id"), "phase": "done", "out": "ok", **timing(case["spec"])})
